@@ -152,6 +152,35 @@ Theorem C14_unrepaired_short_cycle_refuted :
 Proof. exact short_cycle_refuted. Qed.
 Print Assumptions C14_unrepaired_short_cycle_refuted.
 
+(** The schedule does not depend on the configuration: two configurations (any availability time
+    offset, time-shift buffer depth, start time, start number) give the same code for the same
+    segment of the stream. *)
+Theorem C14_schedule_independent_of_config : forall r loopMS, wf r loopMS -> forall c1 c2 repID n codes,
+  0 <= startS c1 -> 0 <= startS c2 -> repDuration r < two64 -> Forall validCycle codes -> 0 <= n ->
+  (startS c1 + S r n) * 1000 < two63 -> (startS c2 + S r n) * 1000 < two63 -> ts r < two32 ->
+  statusLoop true r loopMS c1 repID (S r n) (ts r) (startNr c1 + n) codes =
+  statusLoop true r loopMS c2 repID (S r n) (ts r) (startNr c2 + n) codes.
+Proof. exact schedule_independent_of_config. Qed.
+Print Assumptions C14_schedule_independent_of_config.
+
+(** Generated subtitle tracks (timesubsstpp_/timesubswvtt_): as the code is, every media segment of
+    such a track is answered 404 as soon as a statuscode_ pattern is configured, scheduled or not
+    (finding c14-timesubs-404).  With proposed_fixes/C14-statuscode-generated-subtitles.diff they are
+    looked up in the reference track like audio with timescale 1000 and sample duration 1, and
+    C14_status_number / C14_status_audio_time apply to them. *)
+Theorem C14_timesubs_refuted :
+  scheduled w_rep2 [w_code 8 1 503] "timestpp-en" 40 200 = 200 /\
+  subsAnswerUnrepaired (w_cfg 0 0) [w_code 8 1 503] 100000 200 = AStatus 404.
+Proof. exact timesubs_refuted. Qed.
+Print Assumptions C14_timesubs_refuted.
+
+Theorem C14_timesubs_repaired_example :
+  map (fun n => segAnswer true w_rep2 8000 (w_cfg 0 0) [w_code 8 1 503] "timestpp-en" (Some (1000, 1)) ByNumber n 100000 200)
+      [40; 41; 42] = [AStatus 200; AStatus 503; AStatus 200] /\
+  segAnswer true w_rep2 8000 (w_cfg 0 0) [w_code 8 1 503] "timestpp-en" (Some (1000, 1)) ByTime 82000 100000 200 = AStatus 503.
+Proof. exact timesubs_repaired_example. Qed.
+Print Assumptions C14_timesubs_repaired_example.
+
 (** ** traffic_ *)
 
 (** Parsing what was written gives the intervals back (at least one interval, positive durations,
